@@ -49,6 +49,11 @@ impl SwiftField for Field55A {
 
         // Parse BIC code
         let bic = parse_bic(lines[line_idx])?;
+        if lines.len() > line_idx + 1 {
+            return Err(ParseError::InvalidFormat {
+                message: "Field 55A has no line after the BIC".to_string(),
+            });
+        }
 
         Ok(Field55A {
             party_identifier,
